@@ -135,62 +135,62 @@ Definition check_match (b : rres bool) (ok : schema) : rres schema :=
   let+ x := b in if x then ROk ok else RErrResolution.
 
 (** level 0: the same type (a named type: the same full name); 1: named types also by unqualified name or
-    reader alias; 2: promotions, too *)
+    reader alias; 2: promotions, too.  The bodies of the two mutually recursive functions, open in the other one. *)
+Definition match_types_body (we re : env) (ms : nat -> schema -> schema -> rres schema) (level : nat) (w r : schema)
+  : rres bool :=
+  let w := deref1 we w in
+  let r := deref1 re r in
+  if is_list w || is_list r then ROk true
+  else if is_dict w || is_dict r then
+    match ms level w r with
+    | ROk _ => ROk true
+    | RErrResolution => ROk false
+    | RErrOther => RErrOther
+    | RFuel => RFuel
+    end
+  else ROk (match_type_names (tag_of w) (tag_of r) level).
+
+(* two named types (dict forms): same kind, same size for fixed, names according to the level *)
+Definition named_pair (level : nat) (sw sr : schema) : rres bool :=
+  match sw, sr with
+  | SFixed wn _ wsz, SFixed rn ral rsz =>
+      ROk ((wsz =? rsz) && (bytes_eqb wn rn || ((1 <=? level)%nat && names_match wn rn ral)))
+  | SEnum wn _ _ _, SEnum rn ral _ _ | SRecord wn _ _, SRecord rn ral _ =>
+      ROk (bytes_eqb wn rn || ((1 <=? level)%nat && names_match wn rn ral))
+  | _, _ => ROk false
+  end.
+
+Definition match_schemas_body (we re : env) (mt : nat -> schema -> schema -> rres bool) (level : nat) (w r : schema)
+  : rres schema :=
+  let given := r in                 (* what is returned: the reader schema as given (a reference stays a name) *)
+  let w := deref1 we w in
+  let r := deref1 re r in
+  if is_list w then ROk given      (* writer union: checked in read_union once the branch is known *)
+  else match r with
+  | SUnion bs =>
+      let+ x := reader_branch (fun l => mt l w) bs in
+      match x with Some b => ROk b | None => RErrResolution end
+  | _ =>
+    let wt := tag_of w in
+    let rt := tag_of r in
+    match strip w, strip r with
+    | SMap wv, SMap rv => check_match (mt 2%nat wv rv) given
+    | SArray wi, SArray ri => check_match (mt 2%nat wi ri) given
+    | sw, sr =>
+      if in_named_types wt && in_named_types rt then check_match (named_pair level sw sr) given
+      else if match_type_names wt rt level then ROk given else RErrResolution
+    end
+  end.
+
 Fixpoint match_types (f : nat) (we re : env) (level : nat) (w r : schema) {struct f} : rres bool :=
   match f with
   | O => RFuel
-  | S f =>
-      let w := deref1 we w in
-      let r := deref1 re r in
-      if is_list w || is_list r then ROk true
-      else if is_dict w || is_dict r then
-        match match_schemas f we re level w r with
-        | ROk _ => ROk true
-        | RErrResolution => ROk false
-        | RErrOther => RErrOther
-        | RFuel => RFuel
-        end
-      else ROk (match_type_names (tag_of w) (tag_of r) level)
+  | S f => match_types_body we re (match_schemas f we re) level w r
   end
 with match_schemas (f : nat) (we re : env) (level : nat) (w r : schema) {struct f} : rres schema :=
   match f with
   | O => RFuel
-  | S f =>
-      let given := r in                 (* what is returned: the reader schema as given (a reference stays a name) *)
-      let w := deref1 we w in
-      let r := deref1 re r in
-      if is_list w then ROk given      (* writer union: checked in read_union once the branch is known *)
-      else match r with
-      | SUnion bs =>
-          let+ x := reader_branch (fun l => match_types f we re l w) bs in
-          match x with Some b => ROk b | None => RErrResolution end
-      | _ =>
-        let wt := tag_of w in
-        let rt := tag_of r in
-        match strip w, strip r with
-        | SMap wv, SMap rv => check_match (match_types f we re 2 wv rv) given
-        | SArray wi, SArray ri => check_match (match_types f we re 2 wi ri) given
-        | sw, sr =>
-          if in_named_types wt && in_named_types rt then
-            match sw, sr with
-            | SFixed _ _ wsz, SFixed _ _ rsz => if negb (wsz =? rsz) then RErrResolution else
-                match name_of sw, name_of sr with
-                | Some wn, Some rn =>
-                    if bytes_eqb wn rn || ((1 <=? level)%nat && names_match wn rn (aliases_of sr))
-                    then ROk given else RErrResolution
-                | _, _ => RErrOther
-                end
-            | _, _ =>
-                match name_of sw, name_of sr with
-                | Some wn, Some rn =>
-                    if tag_eqb wt rt && (bytes_eqb wn rn || ((1 <=? level)%nat && names_match wn rn (aliases_of sr)))
-                    then ROk given else RErrResolution
-                | _, _ => RErrOther
-                end
-            end
-          else if match_type_names wt rt level then ROk given else RErrResolution
-        end
-      end
+  | S f => match_schemas_body we re (match_types f we re) level w r
   end.
 
 (** the recursion of match_* descends through array items / map values of the writer schema and makes
